@@ -271,3 +271,11 @@ def _same_decimal_model(it, a, k):
 
 
 same_decimal._pyvc_model = _same_decimal_model
+
+
+def outcome_of(converter, method, value):
+    """what the wrapped converter itself does with the value: ('ok', result) or ('raised', exception class name)"""
+    try:
+        return ("ok", getattr(converter, method)(value))
+    except Exception as ex:
+        return ("raised", type(ex).__name__)
